@@ -200,6 +200,7 @@ func workerMain(spec string) {
 	syscall.Setrlimit(syscall.RLIMIT_AS, &syscall.Rlimit{Cur: lim, Max: lim})
 	debug.SetGCPercent(1600)
 	debug.SetMemoryLimit(2 << 30) // soft: collect harder instead of growing towards the hard limit
+	debug.SetMaxStack(256 << 20)  // 1024 nested EVM frames need a few MB of Go stack; unbounded recursion dies sooner than at the default 1 GB
 	var slot []byte
 	if p := os.Getenv("C20_SLOTS"); p != "" {
 		f, err := os.OpenFile(p, os.O_RDWR, 0644)
@@ -290,7 +291,7 @@ outer:
 					fmt.Fprintf(os.Stderr, "MEM layer=%s cases=%d heapAlloc=%dMB heapSys=%dMB nextGC=%dMB numGC=%d sys=%dMB\n", l.name, ls.Cases, ms.HeapAlloc>>20, ms.HeapSys>>20, ms.NextGC>>20, ms.NumGC, ms.Sys>>20)
 				}
 				ls.Runs += nruns
-				ls.Steps += a.steps
+				ls.Steps += a.steps + a.rqSteps
 				ls.Frames += a.frames
 				ls.Reverts += a.reverts
 				if a.maxDepth > ls.MaxDepth {
@@ -814,7 +815,7 @@ func main() {
 	r.Set("violation_cases", total)
 	r.Set("workers", nw)
 	r.Set("rule", "every program of every layer x every configuration of that layer is executed on the real EVM twice from equal pre-states (observed run on a fresh EVM with probing StateDB + tracer; plain run on a long-lived EVM re-used after Reset()+SetToken() as app/state_transition.go does; a third, fresh plain run only to classify a difference); "+
-		"oracles: no panic / no process death; interpreter steps <= gas + gas/256 + 2000; gas left (+ fee refund the application adds) <= gas supplied; both runs identical in return data, gas, error, fee refunds, balance records, "+
+		"oracles: no panic / no process death (confirmed by running the case alone in a fresh process); interpreter steps <= gas + gas/256 + 2000, steps inside UTXO change-rate queries (counted apart) <= gas + 2000; gas left (+ fee refund the application adds) <= gas supplied; both runs identical in return data, gas, error, fee refunds, balance records, "+
 		"explicit world delta and state root; a failing outermost frame leaves an empty delta and the pre-state root; every nested frame that fails is reverted and the world after RevertToSnapshot equals the world at its Snapshot; "+
 		"non-trivial = behaviour signatures (error class, changed field classes, frames, return size, reverts, balance records) other than an immediate stack underflow / invalid opcode")
 	r.Assume("world = 20 fixed accounts (caller, program account, 10 fixture contracts, precompiles 1-4, small addresses 0x00/0x01/0x20/0xff, one token id); block context fixed (number 10, time 1000); gas price 1")
@@ -823,6 +824,7 @@ func main() {
 	r.Assume("the observed run uses evm.Config{Debug:true, Tracer}; it is compared against the plain run of the same case, so the tracer path is not trusted")
 	r.Assume("wall-clock is used only as a 120 s safety net per case; the termination oracle is the deterministic step budget")
 	r.Assume("types.SaveBalanceRecord = true (node option save_balance_record) so that the balance records an execution emits are real and comparable between the two runs")
+	os.RemoveAll(scratch) // r.Finish exits the process, deferred calls do not run
 	r.Assume("WASM contracts, the app-level state transition around the EVM (buyGas, refundGas, nonce), precompile internals and tracing APIs are outside this check")
 	r.Finish()
 }
